@@ -279,18 +279,32 @@ func solve(dir string, text func(noLambda bool) string, quickS, fullS int) (solv
 				ch <- runSolver(cctx, sp, dir, text(sp.noLambda), rd.t)
 			}(sp)
 		}
+		// "unsat" from any solver discharges the goal at once. "sat" is only believed when no
+		// other solver of the round proves the goal: z3 4.8.12 was seen answering sat on a
+		// quantified goal over reals that z3 5.1.0 proves (and that is valid on paper).
+		var sat *solveResult
 		for range rd.idx {
 			x := <-ch
 			all = append(all, x)
-			if x.status == "unsat" || x.status == "sat" {
+			if x.status == "unsat" {
 				cancel()
+				if sat != nil {
+					x.output = "DISAGREEMENT: " + sat.solver + " answered sat\n" + x.output
+				}
 				return x, all
+			}
+			if x.status == "sat" && sat == nil {
+				y := x
+				sat = &y
 			}
 			if best.status == "error" || (best.status == "timeout" && x.status == "unknown") {
 				best = x
 			}
 		}
 		cancel()
+		if sat != nil {
+			return *sat, all
+		}
 	}
 	return best, all
 }
